@@ -140,6 +140,16 @@ def _one(ctx, rep, op, n_prior, base):
         if cur == final and flip_k is None:
             flip_k = k
     rep.distribution[f"{op}:images"] += rec.k
+    # correspondence with the model's lowering (DSV/Model/Fs.lean `lowerWrite`): every rename is preceded by temp creation, write and fsync
+    # of the temp file and followed by a directory fsync — the same shape C16 checks on the strace level
+    names = [n for n, _a in rec.log]
+    for i, n in enumerate(names):
+        if n == "os.replace":
+            rep.corr_cases += 1
+            before, after = names[max(0, i - 12):i], names[i + 1:i + 6]
+            ok = any(x.startswith("tempfile.") for x in before) and "os.fsync" in before and "os.fsync" in after
+            if not ok:
+                rep.diverge("lowering of an atomic write (os-level call sequence)", {"op": op, "index": i}, "mkstemp … write … fsync → replace → fsync(dir)", before + ["os.replace"] + after)
     for k in range(rec.k):
         img = os.path.join(images, f"{k:04d}")
         case = {"kind": "crash-image", "op": op, "prior_snapshots": n_prior, "point": k, "at": f"{rec.log[k][0]}({os.path.basename(rec.log[k][1])[:50]})"}
